@@ -162,6 +162,9 @@ pub struct SimPlan {
     /// sub-second phase of the virtual epoch
     pub epoch_phase_ns: u64,
     pub max_steps: u64,
+    /// ‰ chance that a worker is stalled right after taking a message out of a channel (sync flavour)
+    #[serde(default)]
+    pub stall_after_recv_permille: u32,
 }
 
 #[derive(Serialize, Deserialize, Clone, Debug, PartialEq, Eq)]
